@@ -9,11 +9,11 @@ From Verif Require Import Common Op_Model Op_Corr Op_Proofs C04_Spec C04_Delay C
    retained, later tasks of the queue only merged into it (same hook) or left waiting —
    none is started in between; repeated application gives "until it succeeds" *)
 Theorem C04_fail_retries_same_task : forall cfg qok q sy t rest,
-  q_running q = Some sy -> q_items q = t :: rest ->
+  q_running q = Some sy -> q_items q = t :: rest -> q_delay q = false ->
   t_type t = HookRun -> t_allow t = false ->
   should_run (hook_v0 cfg (t_hook t)) (incr_fail t) = true ->
-  let q' := adv_one cfg qok (finish_one false false q) in
-  is_running q' = true /\
+  let q' := adv_one cfg qok (finish_one false false false q) in
+  in_handler q' = true /\
   exists t' rest' block,
     q_items q' = t' :: rest' /\ rest = block ++ rest'
     /\ t_hook t' = t_hook t /\ t_fail t' = (t_fail t + 1)%N /\ t_allow t' = false
@@ -22,15 +22,49 @@ Theorem C04_fail_retries_same_task : forall cfg qok q sy t rest,
 Proof. exact fail_retries_same_task. Qed.
 Print Assumptions C04_fail_retries_same_task.
 
+(* the same when the queue's back-off delay is positive: during the delay the failed task
+   stays the head and nothing of the queue runs, whatever is queued meanwhile; when it is
+   over the very same task runs again *)
+Theorem C04_fail_waits_then_retries : forall cfg qok q sy t rest extra,
+  q_running q = Some sy -> q_items q = t :: rest -> q_delay q = false ->
+  t_type t = HookRun -> t_allow t = false ->
+  should_run (hook_v0 cfg (t_hook t)) (incr_fail t) = true ->
+  let q1 := finish_one false false true q in
+  q1 = mkQ (q_name q) (incr_fail t :: rest) (Some false) true
+  /\ in_handler q1 = false /\ adv_one cfg qok q1 = q1
+  /\ let q2 := mkQ (q_name q) (q_items q1 ++ extra) (q_running q1) true in
+     adv_one cfg qok q2 = q2
+     /\ let q' := adv_one cfg qok (elapse_one q2) in
+        in_handler q' = true /\
+        exists t' rest' block,
+          q_items q' = t' :: rest' /\ rest ++ extra = block ++ rest'
+          /\ t_hook t' = t_hook t /\ t_fail t' = (t_fail t + 1)%N /\ t_allow t' = false
+          /\ retained (t_ctxs t) (t_ctxs t') = true
+          /\ Forall (fun x => t_hook x = t_hook t) block.
+Proof. exact fail_waits_then_retries. Qed.
+Print Assumptions C04_fail_waits_then_retries.
+
+(* between the failure and the end of the delay EVERY action of the operator (ticks, events,
+   ends of other executions, a second Finish for this queue) leaves the queue blocked on the
+   same head and only appends to it *)
+Theorem C04_delayed_queue_only_grows : forall cfg s a q,
+  Inv s -> In q (queues s) -> q_delay q = true ->
+  match a with Elapse qn => q_name q <> qn | _ => True end ->
+  exists extra,
+    step_q cfg a (sched_on s) (unlocked s) (stopped s) (has_queue (queues s)) q
+    = mkQ (q_name q) (q_items q ++ extra) (q_running q) true.
+Proof. exact delayed_queue_only_grows. Qed.
+Print Assumptions C04_delayed_queue_only_grows.
+
 (* combining never loses a context of the head task *)
 Theorem C04_combine_retains_contexts : forall l m, retained l (compact (l ++ m)) = true.
 Proof. exact retained_compact_app. Qed.
 Print Assumptions C04_combine_retains_contexts.
 
 (* failure allowed: the execution is dropped, the queue proceeds *)
-Theorem C04_allow_failure_drops : forall q sy t rest ok,
-  q_running q = Some sy -> q_items q = t :: rest -> t_allow t = true ->
-  finish_one ok false q = mkQ (q_name q) rest None.
+Theorem C04_allow_failure_drops : forall q sy t rest ok wait,
+  q_running q = Some sy -> q_items q = t :: rest -> q_delay q = false -> t_allow t = true ->
+  finish_one ok false wait q = mkQ (q_name q) rest None false.
 Proof. exact allow_failure_drops. Qed.
 Print Assumptions C04_allow_failure_drops.
 
@@ -60,7 +94,7 @@ Print Assumptions C04_queue_delay_ge_initial.
 Example C04_hyp_met :
   let cfg := [mkHook 1 false None [] [mkSb 1 1 0 false 1; mkSb 2 1 0 true 2]] in
   let s := exec cfg [Boot; Tick 1; Tick 2; Tick 1]%N init in
-  exists q sy t rest, In q (queues s) /\ q_running q = Some sy /\ q_items q = t :: rest
+  exists q sy t rest, In q (queues s) /\ q_running q = Some sy /\ q_items q = t :: rest /\ q_delay q = false
     /\ t_type t = HookRun /\ t_allow t = false /\ length rest = 2%nat
     /\ should_run (hook_v0 cfg (t_hook t)) (incr_fail t) = true.
 Proof.
